@@ -254,6 +254,52 @@ func pushxTotal(e *vsched.Enum, fn string, prefix, alpha string, maxLen int) {
 	e.Sample(fmt.Sprintf("%s: prefix %q + all strings over %q of length <= %d: %d inputs", fn, prefix, alpha, maxLen, n))
 }
 
+// pushxEdgeTokens: the field separators plus edge numerals around the machine integer limits. The
+// byte-level enumeration cannot reach a 19-digit length field; these sequences put every edge
+// numeral into every numeric field of every frame shape.
+var pushxEdgeTokens = []string{":", "x", "1", "0", "-1",
+	"9223372036854775807", "9223372036854775806", "9223372036854775808", "-9223372036854775808",
+	"18446744073709551615", "18446744073709551616", "2147483647", "2147483648", "4294967295", "4294967296"}
+
+// pushxTotalTokens enumerates prefix + every sequence of <= maxTok tokens.
+func pushxTotalTokens(e *vsched.Enum, fn string, prefix string, maxTok int) {
+	k := int64(len(pushxEdgeTokens))
+	var n int64
+	count := int64(1)
+	var buf []byte
+	for l := 0; l <= maxTok; l++ {
+		class := fmt.Sprintf("%s%q tokens=%d", fn, prefix, l)
+		for i := int64(0); i < count; i++ {
+			n++
+			if !e.Mine(n) {
+				continue
+			}
+			if n&0xFFFFF == 0 && e.Expired() {
+				return
+			}
+			buf = append(buf[:0], prefix...)
+			x := i
+			for d := 0; d < l; d++ {
+				buf = append(buf, pushxEdgeTokens[x%k]...)
+				x /= k
+			}
+			var p any
+			if fn == "parseMessage" {
+				p = pushxParseMessage(buf)
+			} else {
+				_, p = pushxExtract(buf)
+			}
+			e.Case(class, 1)
+			if p != nil {
+				in := string(buf)
+				e.Fail("panic-"+fn+":edge-numeral", fmt.Sprintf("%s(%q) panics: %v", fn, in, p), []string{fmt.Sprintf("%s(%q)", fn, in)})
+			}
+		}
+		count *= k
+	}
+	e.Sample(fmt.Sprintf("%s: prefix %q + all sequences of <= %d tokens over %d tokens (separators + edge numerals): %d inputs", fn, prefix, maxTok, k, n))
+}
+
 // pushxStrings returns all byte strings over alpha of length <= maxLen (shortest first).
 func pushxStrings(alpha string, maxLen int) [][]byte {
 	out := [][]byte{{}}
@@ -407,7 +453,7 @@ func pushxRoundtrip(e *vsched.Enum, maxPayload, maxPrev int) {
 func init() {
 	vsched.Register(&vsched.Harness{
 		Name: "pushx", Props: []string{"C33"}, Kind: "enum",
-		Doc: "totality: extractPushData on every byte string of length <= 7 (T: 8) over {_ p d j l 1 0 : - x}, on \"__d1:\"+all strings <= 10 (T: 12) over {0 1 : - x}, on \"__p\"+all strings <= 8 (T: 10) over {1 0 : _ x}; parseMessage (map broker PUB/SUB decoder) on \"d:\"+all strings <= 10 (T: 11) over {0 1 : - x} and all strings <= 8 (T: 9) over {d 0 1 : - x}; oracle: no panic (each call wrapped in recover; signature names the independently classified input shape). roundtrip: plain/join/leave frames built as the Go publisher builds them and positioned/delta frames built as the Lua builders do (transcribed), payload and prev payload over all byte strings <= 3/4 (T: 4/4) over {_ : x 1 0x00 0xFF} plus marshalled Publications/ClientInfos, offsets {0,1,2^53,MaxUint64}, letter epochs; oracle: decoded (payload,type,offset,epoch,delta,prev,ok) equals the input",
+		Doc: "totality: extractPushData on every byte string of length <= 7 (T: 8) over {_ p d j l 1 0 : - x}, on \"__d1:\"+all strings <= 10 (T: 12) over {0 1 : - x}, on \"__p\"+all strings <= 8 (T: 10) over {1 0 : _ x}; parseMessage (map broker PUB/SUB decoder) on \"d:\"+all strings <= 10 (T: 11) over {0 1 : - x} and all strings <= 8 (T: 9) over {d 0 1 : - x}; oracle: no panic (each call wrapped in recover; signature names the independently classified input shape); edge-numerals: the same decoders on every sequence of <= 5 (T: 6) tokens over {: x 1 0 -1 and the numerals around 2^31, 2^32, 2^63, 2^64} after each frame prefix. roundtrip: plain/join/leave frames built as the Go publisher builds them and positioned/delta frames built as the Lua builders do (transcribed), payload and prev payload over all byte strings <= 3/4 (T: 4/4) over {_ : x 1 0x00 0xFF} plus marshalled Publications/ClientInfos, offsets {0,1,2^53,MaxUint64}, letter epochs; oracle: decoded (payload,type,offset,epoch,delta,prev,ok) equals the input",
 		Variants: func(tier string) []vsched.Variant {
 			if tier == "thorough" {
 				return []vsched.Variant{
@@ -417,6 +463,7 @@ func init() {
 					{Name: "total-mapmsg-delta11", Shards: 16, BudgetS: 600},
 					{Name: "total-mapmsg-raw9", Shards: 16, BudgetS: 600},
 					{Name: "roundtrip-4-4", Shards: 16, BudgetS: 600},
+					{Name: "edge-numerals-6", Shards: 16, BudgetS: 600},
 				}
 			}
 			return []vsched.Variant{
@@ -426,6 +473,7 @@ func init() {
 				{Name: "total-mapmsg-delta10", Shards: 8, BudgetS: 60},
 				{Name: "total-mapmsg-raw8", Shards: 2, BudgetS: 60},
 				{Name: "roundtrip-3-4", Shards: 8, BudgetS: 60},
+				{Name: "edge-numerals-5", Shards: 8, BudgetS: 60},
 			}
 		},
 		Enum: func(v vsched.Variant, e *vsched.Enum) {
@@ -434,6 +482,13 @@ func init() {
 				maxLen, _ = strconv.Atoi(v.Name[i+1:])
 			}
 			switch {
+			case strings.HasPrefix(v.Name, "edge-numerals-"):
+				for _, pre := range []string{"__d1:", "__p", "__"} {
+					pushxTotalTokens(e, "extractPushData", pre, maxLen)
+				}
+				for _, pre := range []string{"d:", ""} {
+					pushxTotalTokens(e, "parseMessage", pre, maxLen)
+				}
 			case strings.HasPrefix(v.Name, "total-raw"):
 				pushxTotal(e, "extractPushData", "", "_pdjl10:-x", maxLen)
 			case strings.HasPrefix(v.Name, "total-delta"):
